@@ -20,6 +20,7 @@ func init() {
 			"(R4) reset rule shape: the away-counter is zeroed whenever the offset equals the home offset, incremented by one otherwise, and the offset returns home (counter zeroed) when the counter exceeds the configured interval; the disabled path only zeroes the counter. " +
 			"Does not decide: the modulo-quantum identity, the half-quantum step bound and the reset timing as numeric facts over all input sequences.",
 		RuleDocs: []string{
+			"C12.R9 when the channels of a group are shared among worker goroutines by index ranges (first = worker x share), the share is the channel count divided by the worker count rounded up (polynomial form of the quotient); rounded down is reported, other forms are undecided",
 			"C12.R6 backward data slice of the inversion flag handed to each channel's unwrapper reads the group's first channel number (flags that leave the function through memory or a module call are undecided)",
 			"C12.R1 E5 carried-state rule: loop-header phis, uses of the range index",
 			"C12.R5 a binary search is only made over a list sorted by a dominating call or a field the module sorts (no instance on the pinned tree; seed C12-6 is the positive example)",
@@ -59,6 +60,7 @@ func runC12(p *Prog, r *Report) {
 	r.MinInstances["C12.R6"] = 1
 	c12R5(p, r)
 	c12R6(p, r)
+	c12R9(p, r)
 	fn := p.Func("", puT, "UnwrapInPlace")
 	ctor := p.Func("", "", "NewPhaseUnwrapper")
 	if fn == nil || ctor == nil {
@@ -1034,10 +1036,26 @@ func c12R6(p *Prog, r *Report) {
 			if !ok || call.Call.StaticCallee() != ctor || inv >= len(call.Call.Args) {
 				return
 			}
-			b := call.Block()
-			inLoop := false
-			for _, sc := range b.Succs {
-				if sc == b || BlockReaches(sc, b) {
+			inLoopAt := func(in2 ssa.Instruction) bool {
+				b := in2.Block()
+				for _, sc := range b.Succs {
+					if sc == b || BlockReaches(sc, b) {
+						return true
+					}
+				}
+				return false
+			}
+			// frame: the constructor may be called from a helper that builds one channel's
+			// unwrapper and is itself called once per channel from a loop: its parameters then
+			// stand for the arguments of that call
+			frame := map[*ssa.Parameter]ssa.Value{}
+			inLoop := inLoopAt(call)
+			if !inLoop {
+				sites, all := p.staticCallSites(fn)
+				if all && len(sites) == 1 && inLoopAt(sites[0]) && len(CallOf(sites[0]).Args) == len(fn.Params) {
+					for i, q := range fn.Params {
+						frame[q] = CallOf(sites[0]).Args[i]
+					}
 					inLoop = true
 				}
 			}
@@ -1045,7 +1063,21 @@ func c12R6(p *Prog, r *Report) {
 				return
 			}
 			if _, isC := call.Call.Args[inv].(*ssa.Const); isC {
-				return // inversion not in use at this site
+				// inversion not in use at this site - unless a sibling call in the same function
+				// computes the flag: then this way of building the unwrapper drops the inversion
+				sibling := false
+				Instrs(fn, func(y ssa.Instruction) {
+					if c2, ok := y.(*ssa.Call); ok && c2 != call && c2.Call.StaticCallee() == ctor && inv < len(c2.Call.Args) {
+						if _, isC2 := c2.Call.Args[inv].(*ssa.Const); !isC2 {
+							sibling = true
+						}
+					}
+				})
+				if sibling {
+					r.Fn(FuncName(fn))
+					r.Bad("C12.R6", "every way "+FuncName(fn)+" builds an unwrapper passes the channel's inversion flag", p.InstrPos(call), "this call passes a constant as the inversion flag while another call in the same function looks the flag up for the channel: on the way that leads here the channels listed for inversion are not inverted (their output is then the complement of what the options ask for, not the input plus whole quanta)")
+				}
+				return
 			}
 			r.Fn(FuncName(fn))
 			found, opaque := false, ""
@@ -1058,6 +1090,12 @@ func c12R6(p *Prog, r *Report) {
 				seen[v] = true
 				if isFirst(v) {
 					found = true
+					return
+				}
+				if prm, isPrm := v.(*ssa.Parameter); isPrm {
+					if a, has := frame[prm]; has {
+						walk(a, d+1)
+					}
 					return
 				}
 				switch x := v.(type) {
@@ -1110,6 +1148,20 @@ func c12R6(p *Prog, r *Report) {
 						Instrs(g, func(y ssa.Instruction) {
 							if v2, ok := y.(ssa.Value); ok && isFirst(v2) {
 								found = true
+							}
+						})
+					case isModuleFn(g) && len(g.Params) == len(x.Call.Args) && len(g.Blocks) > 0:
+						// a predicate of the options (`opt.inverts(channum)`): what it returns, with
+						// its parameters bound to the arguments
+						for i, q := range g.Params {
+							frame[q] = x.Call.Args[i]
+						}
+						Instrs(g, func(y ssa.Instruction) {
+							if ret, ok := y.(*ssa.Return); ok && len(ret.Results) > 0 {
+								walk(ret.Results[0], d+1)
+								for _, c := range controllingIfs(ret.Block()) {
+									walk(c.If.Cond, d+1)
+								}
 							}
 						})
 					case isModuleFn(g):
@@ -1190,4 +1242,117 @@ func singleReturnInstr(fn *ssa.Function) *ssa.Return {
 		return nil
 	}
 	return out
+}
+
+// ---- R9: every channel of a group is unwrapped ------------------------------------------------
+
+// c12R9: when the per-channel unwrapping of a group is shared among worker goroutines by index
+// ranges (worker k takes [k*share, k*share+share)), the shares must cover every channel: share is
+// the number of channels divided by the number of workers *rounded up*.  With the quotient rounded
+// down the last (channels mod workers) channels are never unwrapped: their samples keep the low
+// bits and wraps.  Decided on the polynomial form of the share (a quotient symbol); other forms of
+// sharing are left undecided.
+func c12R9(p *Prog, r *Report) {
+	n := 0
+	for _, fn := range p.LibFuncs() {
+		if fn.Signature.Recv() == nil || typeName(fn.Signature.Recv().Type()) != "AbacoGroup" {
+			continue
+		}
+		pc := NewPolyCtx(fn)
+		pc.G = true
+		Instrs(fn, func(in ssa.Instruction) {
+			g, ok := in.(*ssa.Go)
+			if !ok {
+				return
+			}
+			mc, ok := g.Call.Value.(*ssa.MakeClosure)
+			if !ok {
+				return
+			}
+			cl, _ := mc.Fn.(*ssa.Function)
+			if cl == nil || len(cl.Params) != len(g.Call.Args) {
+				return
+			}
+			// the closure unwraps elements of the group's unwrapper table at computed indices
+			unwraps := false
+			Instrs(cl, func(x ssa.Instruction) {
+				if calleeNamed(x, "UnwrapInPlace") {
+					unwraps = true
+				}
+			})
+			if !unwraps {
+				return
+			}
+			for i, q := range cl.Params {
+				if !isIntLike(q.Type()) {
+					continue
+				}
+				// first = k * share with k the counter of the loop that starts the workers
+				first := pc.Of(g.Call.Args[i])
+				var kSym string
+				for _, sy := range first.Symbols() {
+					for _, part := range strings.Split(sy, "*") {
+						if strings.HasPrefix(part, "phi#") {
+							kSym = part
+						}
+					}
+				}
+				if kSym == "" {
+					continue
+				}
+				kv, okv := pc.symValue(kSym)
+				kph, isPhi := kv.(*ssa.Phi)
+				if !okv || !isPhi {
+					continue
+				}
+				loop := ivLoopAt(kph.Block())
+				if loop == nil || loop.counter != kph {
+					continue
+				}
+				n++
+				r.Fn(FuncName(fn))
+				key := FuncName(fn) + ": the workers' shares cover every channel of the group"
+				// share = first / k
+				var share Poly
+				for mono, co := range first {
+					parts := strings.Split(mono, "*")
+					if len(parts) == 2 && co == 1 {
+						if parts[0] == kSym {
+							share = polySym(parts[1])
+						} else if parts[1] == kSym {
+							share = polySym(parts[0])
+						}
+					}
+				}
+				W := pc.Of(loop.bound)
+				if share == nil || len(first) != 1 {
+					r.Unk("C12.R9", key, p.InstrPos(g), "the first index handed to a worker is `"+first.String()+"`, not (worker number) x (share): coverage of the channels is not decided")
+					continue
+				}
+				ssym := share.Symbols()[0]
+				args := pc.opArgs[ssym]
+				switch {
+				case strings.HasPrefix(ssym, "/(") && len(args) == 2 && args[1].Equal(W):
+					num := args[0]
+					// rounded up: (n + W - 1) / W
+					rest := num.Sub(W).Add(polyConst(1))
+					isLen := len(rest) == 1 && strings.HasPrefix(rest.Symbols()[0], "len(") && rest[rest.Symbols()[0]] == 1
+					floorLen := len(num) == 1 && strings.HasPrefix(num.Symbols()[0], "len(") && num[num.Symbols()[0]] == 1
+					switch {
+					case isLen:
+						r.OK("C12.R9", key, p.InstrPos(g), "share = (channels + workers - 1) / workers: rounded up")
+					case floorLen:
+						r.Bad("C12.R9", key, p.InstrPos(g), "each worker takes `"+share.String()+"` channels: the quotient is rounded down, so when the number of channels is not a multiple of the number of workers the last channels belong to no worker and are never unwrapped (no bit drop, no inversion, wraps stay in): their output is not the input modulo a quantum")
+					default:
+						r.Unk("C12.R9", key, p.InstrPos(g), "the share is `"+share.String()+"`: neither the rounded-up nor the rounded-down quotient of the channel count: not decided")
+					}
+				default:
+					r.Unk("C12.R9", key, p.InstrPos(g), "the share is `"+share.String()+"` with "+W.String()+" workers: coverage of the channels is not decided")
+				}
+			}
+		})
+	}
+	if n == 0 {
+		r.OK("C12.R9", "every channel of a group is unwrapped", "-", "no sharing of channels among workers by index ranges: one unwrapping step per element of the group's table")
+	}
 }
